@@ -2,7 +2,7 @@ package config
 
 // BOUNDED stand-in for the layering and validation statements of C04 over operation histories
 // (the deductive check proves each getter, setter and replace function against the layer fields of
-// one option; the induction over a history of operations is not mechanised): seven options (string
+// one option; the induction over a history of operations is not mechanised): eight options (string
 // with a regular expression, string with allowed values, int with a validation function, bool,
 // string list with a regular expression, string list with allowed values, and the release-level
 // option itself) at different release levels; every sequence of up to two operations out of
@@ -68,6 +68,7 @@ func TestBoundedC04Layers(t *testing.T) {
 		{"c04/bool", OptTypeBool, ReleaseLevelStable, false, []interface{}{true, false}, []interface{}{"true", 1}},
 		{"c04/list-regex", OptTypeStringArray, ReleaseLevelBeta, []string{"x"}, []interface{}{[]string{"a", "b"}, []string{}}, []interface{}{[]string{"a", "B"}, "a", []interface{}{"a", 1}}},
 		{"c04/list-allowed", OptTypeStringArray, ReleaseLevelStable, []string{"a"}, []interface{}{[]string{"a", "b"}, []string{"b"}}, []interface{}{[]string{"a", "d"}, []string{"zzz"}}},
+		{"c04/int-allowed", OptTypeInt, ReleaseLevelStable, 1, []interface{}{int64(2), float64(3), 2, uint8(3), int32(1), float32(2)}, []interface{}{4, int64(0), "2", 2.5}},
 		{releaseLevelKey, OptTypeString, ReleaseLevelStable, ReleaseLevelNameStable, []interface{}{ReleaseLevelNameBeta, ReleaseLevelNameExperimental, ReleaseLevelNameStable}, []interface{}{"nightly", 2}},
 	}
 	reg := func(o *Option) {
@@ -99,12 +100,21 @@ func TestBoundedC04Layers(t *testing.T) {
 	o = base(5)
 	o.PossibleValues = []PossibleValue{{Name: "a", Value: "a"}, {Name: "b", Value: "b"}}
 	reg(o)
+	o = base(6)
+	o.PossibleValues = []PossibleValue{{Name: "one", Value: 1}, {Name: "two", Value: 2}, {Name: "three", Value: 3}}
+	reg(o)
 
 	norm := func(v interface{}) interface{} {
 		switch x := v.(type) {
 		case int:
 			return int64(x)
 		case float64:
+			return int64(x)
+		case float32:
+			return int64(x)
+		case int32:
+			return int64(x)
+		case uint8:
 			return int64(x)
 		case []interface{}:
 			out := []string{}
@@ -414,7 +424,7 @@ func TestBoundedC04Layers(t *testing.T) {
 			}
 		}
 	}
-	fmt.Printf("BOUNDED name=C04/layers cases=%d distinct=%d bound=every sequence of up to 2 operations (thorough: also any operation, a replacement, a user-layer set), plus 5 longer sequences around the release level, out of %d operation instances: single-option set of valid values, of invalid values of every kind (regular expression, allowed values, validation function, wrong type, fractional number, mixed list) and unset, on the user and on the default layer, for 7 options (string with regular expression, string with allowed values, int with validation function, bool, two string lists, the release-level option) at 3 release levels; 4 whole-layer replacements per layer (all valid with an unknown key; valid and invalid mixed; lists as decoded from JSON; empty); after every operation its result and 8 getters per option created before the sequence (plain and concurrency-safe, right and wrong type), an unknown option and fresh getters are compared with a three-layer reference model\n", cases, cases, len(ops))
+	fmt.Printf("BOUNDED name=C04/layers cases=%d distinct=%d bound=every sequence of up to 2 operations (thorough: also any operation, a replacement, a user-layer set), plus 5 longer sequences around the release level, out of %d operation instances: single-option set of valid values, of invalid values of every kind (regular expression, allowed values, validation function, wrong type, fractional number, mixed list) and unset, on the user and on the default layer, for 8 options (string with regular expression, string with allowed values, int with validation function, int with allowed values set through 6 numeric Go types, bool, two string lists, the release-level option) at 3 release levels; 4 whole-layer replacements per layer (all valid with an unknown key; valid and invalid mixed; lists as decoded from JSON; empty); after every operation its result and 8 getters per option created before the sequence (plain and concurrency-safe, right and wrong type), an unknown option and fresh getters are compared with a three-layer reference model\n", cases, cases, len(ops))
 	if fails > 0 {
 		t.Fatalf("%d of %d sequences differ from the reference model", fails, cases)
 	}
